@@ -42,7 +42,10 @@ structure Fits (m : Message) (h : Header) (L : Nat) : Prop where
     handed.  Requests (received by the server): the method is a token; `:scheme`, `:authority`,
     `:path`, `:protocol` values are printed and parsed back unchanged by the `http` crate
     (`PseudoBack`: `parseX v = some v`, for the values the sender's crate printed); the receiver's
-    `Uri::builder` builds `u` from these three parts.  Responses (received by the client): the
+    `Uri::builder` builds `u` from these three parts; the `Host` values the application submitted
+    (if any) are all the same value — `Header::request` compares only the first one with the URI's
+    authority, the receiving h3 refuses a request whose `Host` values differ (D-12e); several
+    identical `Host` values survive.  Responses (received by the client): the
     status is 100…999. -/
 inductive HeadOk (H : Http) : Role → Message → HeadOut → Prop where
   | request (m : Message) (method : Bytes) (uri : UriParts) (ext : Option Bytes) (u : Uri) :
@@ -50,6 +53,7 @@ inductive HeadOk (H : Http) : Role → Message → HeadOut → Prop where
       H.uriBuild (Pseudo.request method uri ext).scheme
         (effAuthority uri.authority (hmGet (mapOf m.headers) nHost))
         (Pseudo.request method uri ext).path = some u →
+      allFirst (hmGroup (mapOf m.headers) nHost) = true →
       HeadOk H .server m (.request (RequestParts.mk method u
         (Pseudo.request method uri ext).protocol (mapOf m.headers)))
   | response (m : Message) (status : Nat) :
@@ -168,10 +172,10 @@ theorem head_block (H : Http) (role : Role) (m : Message) (h : Header) (out : He
     (hwf : WellFormed m h) (hfit : Fits m h L) (hhead : HeadOk H role m out) :
     (hdrOf H role L).head (fieldSection h) = .ok ∧ decodeHead H role L (fieldSection h) = some out := by
   cases hhead with
-  | request m method uri ext u hm hp hb =>
+  | request m method uri ext u hm hp hb hhosts =>
     have hreq : Header.request method uri (mapOf m.headers) ext = .ok h := by
       have := hwf.header; unfold headerOf at this; rw [hm] at this; exact this
-    have hr := recvRequest_sent H method uri ext m.headers u h hreq ⟨hp, hwf.regular, hb⟩ hwf.holdable
+    have hr := recvRequest_sent H method uri ext m.headers u h hreq ⟨hp, hwf.regular, hb, hhosts⟩ hwf.holdable
     obtain ⟨a, b⟩ := decodeWith_fieldSection (recvRequest H) h hwf.encodable L hfit.size
     simp only [hdrOf, decodeHead, a, b, hr, classOf, optOf, Option.map_some, and_self]
   | response m status hm h1 h2 =>
